@@ -79,6 +79,10 @@ func (c14) Run(c *fw.Case) {
 		c14{}.loaderHistory(c)
 		return
 	}
+	if c.Idx%40 == 13 {
+		c14{}.numberHistory(c)
+		return
+	}
 	var s *jsonschema.Schema
 	var docText string
 	var dynInsts []any
@@ -502,4 +506,74 @@ func c14Names(c *fw.Case) []string {
 		return []string{"a", "A", "b", "B", "k", "\u212a", "s", "\u017f"}
 	}
 	return gen.Names[:5]
+}
+
+// numberHistory: numbers at the edge of the float64 range, written with an exponent, under a fractional multipleOf (the
+// quotient leaves the float64 range) - and the SAME literal under other schemas before and afterwards. What a call computes
+// from an instance belongs to that call: the verdicts of the other schemas are fixed by the literal alone.
+func (c14) numberHistory(c *fw.Case) {
+	r := c.R
+	lit := gen.Pick(r, []string{"1e308", "1.5e308", "9e307", "1E308", "17e307", "1.7e+308", "-1e308", "-9E307"})
+	neg := lit[0] == '-'
+	mult := gen.Pick(r, []string{"0.5", "0.3", "0.7", "0.1", "0.25", "1e-10"})
+	fixed := []struct {
+		text string
+		want bool
+	}{
+		{`{"type":"integer"}`, true},
+		{`{"exclusiveMaximum":1.7976931348623157e308}`, true},
+		{`{"exclusiveMinimum":-1.7976931348623157e308}`, true},
+		{`{"minimum":1e307}`, !neg},
+		{`{"maximum":-1e307}`, neg},
+	}
+	var fixedRS []*jsonschema.Resolved
+	for _, f := range fixed {
+		rs, err, ok := compileDoc(c, f.text, nil)
+		if !ok || err != nil {
+			return
+		}
+		fixedRS = append(fixedRS, rs)
+	}
+	mtext := `{"multipleOf":` + mult + `}`
+	mrs, err, ok := compileDoc(c, mtext, nil)
+	if !ok || err != nil {
+		return
+	}
+	checkFixed := func(phase string) bool {
+		for i, f := range fixed {
+			got, ok := validate(c, fixedRS[i], f.text, json.Number(lit), "json.Number("+lit+")")
+			if !ok {
+				return false
+			}
+			c.Eval(1)
+			if got != f.want {
+				c.Violation(fmt.Sprintf("%s: %s on the number %s is valid=%v, want %v", phase, f.text, lit, got, f.want),
+					map[string]any{"schema": json.RawMessage(f.text), "instance": "json.Number(" + lit + ")", "between": mtext, "phase": phase})
+				return false
+			}
+		}
+		return true
+	}
+	if !checkFixed("before") {
+		return
+	}
+	var first bool
+	for k := 0; k < 3; k++ {
+		got, ok := validate(c, mrs, mtext, json.Number(lit), "json.Number("+lit+")")
+		if !ok {
+			return
+		}
+		c.Eval(1)
+		if k == 0 {
+			first = got
+		} else if got != first {
+			c.Violation(fmt.Sprintf("repeated Validate calls disagree (call 1 valid=%v, call %d valid=%v)", first, k+1, got), map[string]any{"schema": json.RawMessage(mtext), "instance": "json.Number(" + lit + ")"})
+			return
+		}
+	}
+	if !checkFixed("after " + mtext + " judged the same literal") {
+		return
+	}
+	c.Nontrivial("numberHistory|" + lit + "|" + mult)
+	c.Digest(fmt.Sprint(first))
 }
